@@ -38,6 +38,10 @@ CLAIMED = {
  "C13": ("partial: an abstract session model (a rejected form is a no-op; loop transcript = batch transcript; any interleaving of rejected forms leaves accepted outputs unchanged) and a model of scanIsContinued proved to cut well-laid-out input into exactly its forms; the undo machinery (scoSetUndoState), incremental symbol tables and fintWrap are tied end-to-end only (-Gloop vs -Ginterp).",
          "Lean 4 proof over session model and line-continuation model + differential correspondence (scanIsContinued) + end-to-end loop-vs-batch search with erroneous forms interleaved",
          "scanIsContinued is run against its model on ~146k inputs; template and generated programs are fed form by form to -Gloop, with erroneous forms interleaved, and compared with -Ginterp."),
+
+ "C12": ("partial: the Java builtin mapping (genjava.c table, foamj method bodies) is regenerated and proved equal to a 32-bit reference per builtin, with lemmas fixing exactly the region (operands and exact result within 32 bits) where the Java route can agree with the 64-bit C/interpreter routes; the 5000-line Java emitter is not modelled and is covered by the end-to-end javac/java vs interpreter search.",
+         "translator (genjava.c builtin table + foamj Java method bodies) regenerating Lean definitions + Lean 4 theorems + JVM correspondence on boundary tuples + end-to-end Java-vs-interpreter search",
+         "Every run regenerates the Java builtin mapping from the sources and re-proves it against a 32-bit reference; the real foamj methods are executed on boundary tuples; corpus and generated programs are compiled with -Fjava, javac, and run against the interpreter."),
  "C14": ("partial: the lineariser (linear.c) is modelled and proved layout-invariant (blank/comment lines, column independence outside piles, monotone re-indentation inside piles, pile=braces on a block language by bounded kernel check); scanner and parser are tied end-to-end only (-WTr+li token lists and -Fap trees across layout variants).",
          "Lean 4 proof over hand model of linear.c + differential correspondence + end-to-end layout-variant search",
          "Lean theorems about a statement-by-statement model of linear.c; the model is run against the real lineariser on scanned layout variants every run, and the compiler's own token list / parse tree is compared across variants."),
